@@ -22,6 +22,8 @@ def run(tier, seed, work, replay):
     cases = [{"kind": "sweep"}]
     inj = [{"pass": p, "cert": c, "tls": t, "via": "http"} for p in passes for c in (True, False) for t in (True, False)]
     inj += [{"pass": p, "cert": False, "tls": False, "via": "aws"} for p in passes]
+    # a client certificate that was presented but not verified (no chain): not "a verified client certificate"
+    inj += [{"pass": p, "cert": False, "tls": True, "via": "http", "presented": True} for p in ("right", "wrong")]
     # every single injection on every kind of key file, then all ordered pairs around the right one, then random sequences
     for f in ("ok", "ed", "edbad", "rsabad", "edprimary", "ecprimary521", "edotherpass"):
         for a in inj:
